@@ -195,6 +195,7 @@ func (s *SubscriptionManager[C, T]) Disconnect(clientID C) bool {
 // Subscribe subscribes the client to the topic.
 // Returns true if the client successfully subscribed to the topic.
 func (s *SubscriptionManager[C, T]) Subscribe(clientID C, topic T) bool {
+	clientConnected := true
 	clientDropped := false
 	var removedTopics, unsubscribedTopics []T
 	topicAdded := false
@@ -207,6 +208,8 @@ func (s *SubscriptionManager[C, T]) Subscribe(clientID C, topic T) bool {
 		// check if the client is connected
 		subscribedTopics, has := s.subscribers.Get(clientID)
 		if !has {
+			clientConnected = false
+
 			return
 		}
 
@@ -241,6 +244,11 @@ func (s *SubscriptionManager[C, T]) Subscribe(clientID C, topic T) bool {
 			topicAdded = true
 		}
 	}()
+
+	if !clientConnected {
+		// do not fire the subscribed events
+		return false
+	}
 
 	if clientDropped {
 		for _, topic := range removedTopics {
